@@ -481,6 +481,44 @@ static void build_pool() {
     }
 }
 
+// ---- conflict discovery: every TLD label is looked up once, alone, in a simulated process of its own, and the bytes of library
+// static storage the look-up wrote (or touched atomically) are recorded; labels sharing such bytes form the pairs that the
+// "conflict" plans explore.  Deterministic for a given build; empty on a tree that keeps no such storage.
+static vector<std::pair<string, string>> g_conf; static bool g_conf_done = false; static size_t g_conf_labels_writing = 0, g_conf_locations = 0;
+static void discover_conflicts() {
+    if (g_conf_done) return;
+    g_conf_done = true;
+    int nt = 0; while (tld_list[nt].domain) nt++;
+    std::map<uint64_t, vector<int>> by_addr;
+    for (int i = 0; i < nt; i++) {
+        std::function<void()> f = [&]() {
+            rt::reset_library_globals(); rt::begin_sequential(); rt::record_static_accesses(true);
+            const char *l = tld_list[i].domain;
+            rt::enter_sut(); (void)is_tld(l, l + strlen(l)); rt::leave_sut();
+            vector<uint64_t> r = rt::take_recorded(); rt::record_static_accesses(false); rt::end_sequential();
+            if (!r.empty()) g_conf_labels_writing++;
+            for (uint64_t a : r) by_addr[a >> 3].push_back(i);          // word granularity
+        };
+        rt::on_fresh_thread([](void *q) { (*(std::function<void()> *)q)(); }, &f);
+    }
+    std::set<std::pair<int, int>> seen; vector<std::pair<int, std::pair<int, int>>> ranked;
+    for (auto &kv : by_addr) {
+        vector<int> v = kv.second; std::sort(v.begin(), v.end()); v.erase(std::unique(v.begin(), v.end()), v.end());
+        if (v.size() < 2 || v.size() > 24) continue;       // bytes every label writes (a counter) say nothing about pairs
+        g_conf_locations++;
+        for (size_t x = 0; x < v.size(); x++) for (size_t y = x + 1; y < v.size(); y++) {
+            if (!seen.insert({ v[x], v[y] }).second) continue;
+            const char *a = tld_list[v[x]].domain, *b = tld_list[v[y]].domain; size_t la = strlen(a), lb = strlen(b);
+            int score = 0;
+            if (tld_list[v[x]].type != tld_list[v[y]].type) score += 2;
+            if (!strncmp(a, b, la < lb ? la : lb)) score += 4;              // one a prefix of the other
+            ranked.push_back({ -score, { v[x], v[y] } });
+        }
+    }
+    std::sort(ranked.begin(), ranked.end());
+    for (size_t i = 0; i < ranked.size() && i < 64; i++) g_conf.push_back({ string("u@x.") + tld_list[ranked[i].second.first].domain, string("u@x.") + tld_list[ranked[i].second.second].domain });
+}
+
 static Plan gen_plan(const string &cfg, uint64_t seed, long long index) {
     Plan p; p.cfg = cfg; p.seed = seed; p.index = index;
     uint64_t rs = sim_mix64(seed ^ sim_mix64((uint64_t)index * 0x9E3779B97F4A7C15ULL + 14));
@@ -488,6 +526,63 @@ static Plan gen_plan(const string &cfg, uint64_t seed, long long index) {
     p.locale = sim_below(&lr, 3) == 0 ? "C.UTF-8" : "C";
     static const int TS[] = { 2, 2, 2, 3, 3, 4, 4, 8, 16 };
     p.nthreads = TS[sim_below(&w, 9)];
+    if (cfg == "conflict") {
+        // conflict-directed small scope: pairs of TLD labels whose look-ups touch the same bytes of library static storage (found
+        // by discover_conflicts(); none on a tree without such storage), one thread per label after the main thread has looked
+        // the first one up once, every schedule with at most two preemptions among the first 32 scheduling points
+        discover_conflicts();
+        p.nthreads = 2; p.locale = "C";
+        if (g_conf.empty()) { p.nthreads = 1; Op o; o.t = 0; o.k = TLD; o.a = "u@x.com"; p.ops.push_back(o); p.policy = 2; return p; }
+        const long SMAX = 32, NSCHED = 1 + SMAX + SMAX * (SMAX - 1) / 2, P = (long)g_conf.size();
+        long k = (long)(index % (P * 4 * NSCHED)); long pair = k % P; k /= P; int first = (int)(k % 2); k /= 2; int role = (int)(k % 2); long sched = k / 2;
+        string A = role ? g_conf[pair].second : g_conf[pair].first, B = role ? g_conf[pair].first : g_conf[pair].second;
+        Op w0; w0.t = 0; w0.k = TLD; w0.a = A; w0.ph = 1; p.ops.push_back(w0);
+        Op a0; a0.t = 0; a0.k = TLD; a0.a = A; p.ops.push_back(a0);
+        Op b0; b0.t = 1; b0.k = TLD; b0.a = B; p.ops.push_back(b0);
+        p.main_init = { 0, 1 }; p.main_free = { 0, 1 };
+        p.policy = 0; p.has_switches = true;
+        p.switches.push_back(rt::Switch{ 0, first, 0 });
+        if (sched >= 1 && sched <= SMAX) p.switches.push_back(rt::Switch{ (uint64_t)sched, 1 - first, 0 });
+        else if (sched > SMAX) {
+            long q = sched - SMAX - 1, i = 1; while (q >= SMAX - i) { q -= SMAX - i; i++; }
+            long j = i + 1 + q;
+            p.switches.push_back(rt::Switch{ (uint64_t)i, 1 - first, 0 }); p.switches.push_back(rt::Switch{ (uint64_t)j, first, 0 });
+        }
+        return p;
+    }
+    if (cfg == "systematic") {
+        // small scope, complete: two threads, one validation each, and EVERY schedule with at most two preemptions among the
+        // first SMAX scheduling points (plus either thread starting).  index = ((pair * 2 + first) * NSCHED) + schedule number.
+        static const char *PAIRS[][2] = {
+            { "u@b\xc3\xbc" "cher.de", "u@xn--a.com" },                                 // converts / malformed A-label
+            { "u@\xff\xfe.com", "u@xn--zz--zz.com" },                                    // two different IDN failures
+            { "u@" "aaaaaaaaaaaaaaaaaaaaaaaaaaaaaaaaaaaaaaaaaaaaaaaaaaaaaaaaaaaaaaaaaaaaaaaaaaaaaaaaaaaaaaaaaaaaaaaaaaaaaaaaaaaaaaaaaaaaaaaaaaaaaaa.com", "u@\xe2\x80\x8d.com" },   // label too long / contextj
+            { "user@example.com", "user@example.org" },
+            { "u@x.ai", "u@x.airforce" },                                                 // related TLDs
+            { "u@x.americanexpresss", "u@x.americanexpress" },                            // unknown neighbour of a long TLD
+            { "x@[IPv6:::ffff:192.0.2.128]", "x@[IPv6:::ffff:192.0.2.128]" },             // same shared string
+            { "\xd0\xb8\xd0\xb2\xd0\xb0\xd0\xbd@\xd0\xbf\xd0\xbe\xd1\x87\xd1\x82\xd0\xb0.\xd1\x80\xd1\x84", "u@xn--80a1acny.xn--p1ai" },
+            { "u@m.COM", "u@m.coM" }, { "u@hidden.onion", "u@bad.invalid" }, { "\"q s\"@mail.ru", "a..b@c.com" }, { "u@\xc2\xad", "u@a.\xc2\xad" },
+        };
+        const long NPAIR = (long)(sizeof PAIRS / sizeof PAIRS[0]), SMAX = 48, NSCHED = 1 + SMAX + SMAX * (SMAX - 1) / 2;    // none, one, two preemptions
+        long k = (long)(index % (NPAIR * 2 * NSCHED)); long sched = k % NSCHED; k /= NSCHED; int first = (int)(k % 2); long pair = k / 2;
+        long variant = (long)(index / (NPAIR * 2 * NSCHED));            // further laps: other modes / call kinds
+        p.nthreads = 2; p.locale = "C";
+        for (int t = 0; t < 2; t++) {
+            Op a; a.t = t; a.k = SET_RFC; a.v = (variant % 4 == 0) ? 3 : (long long)((variant + t) % 4); p.ops.push_back(a);
+            Op b; b.t = t; b.k = SETUP; p.ops.push_back(b);
+            Op o; o.t = t; o.k = (variant % 3 == 2) ? TLD : IS_EMAIL; o.a = PAIRS[pair][t]; p.ops.push_back(o);
+        }
+        p.policy = 0; p.has_switches = true;
+        p.switches.push_back(rt::Switch{ 0, first, 0 });
+        if (sched >= 1 && sched <= SMAX) p.switches.push_back(rt::Switch{ (uint64_t)sched, 1 - first, 0 });
+        else if (sched > SMAX) {
+            long q = sched - SMAX - 1, i = 1; while (q >= SMAX - i) { q -= SMAX - i; i++; }      // i in [1,SMAX), j in (i,SMAX]
+            long j = i + 1 + q;
+            p.switches.push_back(rt::Switch{ (uint64_t)i, 1 - first, 0 }); p.switches.push_back(rt::Switch{ (uint64_t)j, first, 0 });
+        }
+        return p;
+    }
     if (cfg == "crowd") {
         // hundreds of threads, one or two calls each, a handful of shared strings: counters and queues sized for "a few" threads
         static const int CT[] = { 33, 64, 65, 128, 129, 255, 256, 257, 258, 300, 319 };
@@ -646,6 +741,7 @@ static sj::Value stats_json() {
     j.set("ops", ST.ops); j.set("outcome_comparisons", ST.outcome_cmp); j.set("write_shared_locations", ST.write_shared);
     j.set("plans_with_exit_while_others_run", ST.exit_plans); j.set("library_exit_handlers_run", ST.exit_handlers_run);
     j.set("library_constructors", (long long)rt::library_constructors()); j.set("library_exit_handlers_now", (long long)rt::library_exit_handlers());
+    j.set("conflict_discovery", g_conf_done ? "done" : "not run"); j.set("max_labels_writing_library_statics", (long long)g_conf_labels_writing); j.set("max_static_locations_shared_by_labels", (long long)g_conf_locations); j.set("max_conflict_pairs_explored", (long long)g_conf.size());
     j.set("relay_plans", ST.relay_plans); j.set("objects_handed_between_live_workers", ST.relay_handovers);
     j.set("handoff_plans", ST.handoff_plans); j.set("calls_by_main_before_start", ST.calls_by_main_before_start); j.set("calls_by_main_after_join", ST.calls_by_main_after_join);
     j.set("max_worker_stack_bytes_used", ST.stack_used_max);
